@@ -79,7 +79,20 @@ def make_case(seed, i):
     case["index"] = i
     case["bstate"], case["fstate"] = bstate, fstate
     case["noise_seed"] = rng.next()
+    case["out_dir"] = "build-out" if i % 4 == 3 else None        # build / build --check with --out-dir build-out
     return case
+
+
+def od_args(case):
+    return ["--out-dir", case["out_dir"]] if case.get("out_dir") else []
+
+
+def od_strip(case, rel):
+    """Path below the output directory (outputs live in <root>/<out_dir>/ when --out-dir is used)."""
+    od = case.get("out_dir")
+    if od and rel.startswith(od + os.sep):
+        return rel[len(od) + 1:]
+    return rel
 
 
 # -- state preparation --------------------------------------------------------------------------------
@@ -126,13 +139,14 @@ def prepare(case, top, home):
                 did.append("layout noise in " + os.path.relpath(p, top))
     if bstate == "fresh":
         return True, did
-    r = L.run_veryl(["build"], root, home)
+    r = L.run_veryl(["build"] + od_args(case), root, home)
     if r["code"] != 0:
         return False, "veryl build failed while preparing: " + L.tail(r["err"], 400)
-    did.append("veryl build")
+    did.append("veryl build" + (" --out-dir " + case["out_dir"] if case.get("out_dir") else ""))
     outs = sorted(rel for rel in L.read_files(root, lambda rel: rel.endswith(".sv") and not rel.startswith(".build")))
-    root_outs = [o for o in outs if not o.startswith("dependencies" + os.sep)]
-    dep_outs = [o for o in outs if o.startswith("dependencies" + os.sep) and not o.startswith(os.path.join("dependencies", "std"))]
+    root_outs = [o for o in outs if not od_strip(case, o).startswith("dependencies" + os.sep)]
+    dep_outs = [o for o in outs if od_strip(case, o).startswith("dependencies" + os.sep)
+                and not od_strip(case, o).startswith(os.path.join("dependencies", "std"))]
     srcs = [os.path.join(root, f["path"]) for f in root_sources(case)]
 
     def fallback(why):
@@ -183,7 +197,7 @@ def prepare(case, top, home):
             fh.write("// hand edit\n")
         did.append("appended a comment to " + o)
     elif bstate in ("std-output-edited", "std-output-missing"):
-        std_outs = [o for o in outs if o.startswith(os.path.join("dependencies", "std"))]
+        std_outs = [o for o in outs if od_strip(case, o).startswith(os.path.join("dependencies", "std"))]
         if not std_outs:
             return fallback("no std output on disk (bundle target keeps none)")
         o = rng.pick(std_outs)
@@ -207,14 +221,15 @@ def prepare(case, top, home):
         os.remove(os.path.join(root, f["path"]))
         did.append("removed source " + f["path"])
     elif bstate == "map-missing":
-        maps = sorted(L.read_files(root, lambda rel: rel.endswith(".sv.map") and not rel.startswith("dependencies")))
+        maps = sorted(L.read_files(root, lambda rel: rel.endswith(".sv.map")
+                                   and not od_strip(case, rel).startswith("dependencies")))
         if not maps:
             return fallback("no source map on disk")
         o = rng.pick(maps)
         os.remove(os.path.join(root, o))
         did.append("removed " + o)
     elif bstate == "filelist-edited":
-        fl = os.path.join(root, L.filelist_name(case["name"], opts["filelist"]))
+        fl = os.path.join(root, case.get("out_dir") or "", L.filelist_name(case["name"], opts["filelist"]))
         with open(fl, "a") as fh:
             fh.write("# hand edit\n" if opts["filelist"] == "flgen" else "/nonexistent/hand_edit.sv\n")
         did.append("appended a line to the filelist")
@@ -226,7 +241,8 @@ def kind_of(rel, case):
     rel = os.path.normpath(rel)
     if rel.endswith(".sv.map"):
         return "map"
-    if o["target"] == "bundle" and rel == os.path.join(case["root"], os.path.normpath(o["target_path"])):
+    if o["target"] == "bundle" and rel == os.path.normpath(os.path.join(case["root"], case.get("out_dir") or "",
+                                                                         o["target_path"])):
         return "bundle"
     if rel.endswith(".sv"):
         return "sv"
@@ -281,7 +297,7 @@ def run_case(case, scratch):
     if ok:
         L.copytree(top, snap)
         res["fmt"] = twin(case, top, snap, home, ["fmt", "--check"], ["fmt"])
-        res["build"] = twin(case, top, snap, home, ["build", "--check"], ["build"])
+        res["build"] = twin(case, top, snap, home, ["build", "--check"] + od_args(case), ["build"] + od_args(case))
     if not os.environ.get("VERIF_KEEP_SCRATCH"):
         L.rmtree(d)
     return res
@@ -319,7 +335,9 @@ def main():
         run.eval()
         case = res["case"]
         o = case["opts"]
-        cfg = f"{o['target']}{'+incremental' if o.get('incremental') else ''}"
+        cfg = f"{o['target']}{'+incremental' if o.get('incremental') else ''}{'+out-dir' if case.get('out_dir') else ''}"
+        if case.get("out_dir"):
+            run.count("out_dir_states")
         if not res["prepared"]:
             run.count("state_preparation_failed")
             run.note(f"case {i} ({case['bstate']}/{case['fstate']}/{cfg}): {res['did']}")
@@ -365,7 +383,7 @@ def main():
                 continue
             verdict = "passes-but-write-changes-files" if passed else "fails-but-write-changes-nothing"
             scen = state + (":" + cfg if which == "build" else "")
-            stdp = os.path.join(case["root"], "dependencies", "std") + os.sep
+            stdp = os.path.join(case["root"], case.get("out_dir") or "", "dependencies", "std") + os.sep
             if which == "build" and passed and judged and all(c.startswith(stdp) for c in judged):
                 scen = "only-std-outputs-which-check-mode-skips"
             what = (f"`veryl {which} --check` exit {t['check_code']} but `veryl {which}` on the identical state "
@@ -388,7 +406,7 @@ def main():
         run.finish([])
     run.finish([("states_prepared", 10), ("fmt_pairs_compared", 10), ("build_pairs_compared", 10),
                 ("fmt_check_passed", 4), ("fmt_check_failed", 4), ("build_check_passed", 4), ("build_check_failed", 4),
-                ("build_states", 4), ("fmt_states", 2)])
+                ("build_states", 4), ("fmt_states", 2), ("out_dir_states", 2)])
 
 if __name__ == "__main__":
     main()
